@@ -39,6 +39,9 @@ var payloadKinds = []struct {
 	{"spaces-only", func(r *rand.Rand, n int) string { return fw.Pick(r, []string{" ", "   "}) }},
 	{"long", func(r *rand.Rand, n int) string { return fmt.Sprintf(" #%d ", n) + strings.Repeat("long ", 60) }},
 	{"no-space", func(r *rand.Rand, n int) string { return fmt.Sprintf("#%d", n) }},
+	{"tool-annotation", func(r *rand.Rand, n int) string {
+		return fw.Pick(r, []string{"# sourceMappingURL=out.js.map", "@ sourceMappingURL=out.js.map", "# sourceURL=a.js", " eslint-disable-next-line", " @ts-ignore", "/ <reference path=\"x\" />", " prettier-ignore", "! license"}) + fmt.Sprintf(" #%d", n)
+	}},
 }
 
 func trimC(s string) string { return strings.TrimRight(s, " \t\r") }
@@ -179,6 +182,13 @@ func runC15(t *fw.T) {
 	}
 	// ---- pretty
 	cfgs := []Cfg{CfgPretty, prettyCfgs()[r.IntN(20)]}
+	if r.IntN(2) == 0 {
+		// half of the programs are first printed with a source map requested (comments are written all the same), then
+		// again without: the same tree, the same comments
+		first := prettyCfgs()[r.IntN(20)]
+		first.Map = true
+		cfgs = append([]Cfg{first}, cfgs...)
+	}
 	// every second case prints through this worker's long-lived Compiler values (the printer is a value users keep)
 	reused := (t.Index/16)%2 == 1
 	if reused {
